@@ -81,7 +81,8 @@ def _run(source, param, strict_unassigned, overlap="nothing"):
             if stringprep.in_table_a1(ch):
                 raise Refused("A.1", f"unassigned code point U+{ord(ch):04X} in {param}")
     # ---- 2.2 normalisation
-    normal = unicodedata.normalize("NFKC", mapped)
+    # (RFC 3454 section 4: NFKC of Unicode 3.2 -- five CJK compatibility ideographs were re-mapped by Corrigendum #4 later)
+    normal = unicodedata.ucd_3_2_0.normalize("NFKC", mapped)
     # ---- 2.3 prohibited output
     for ch in normal:
         for name, table in PROHIBITED:
